@@ -39,7 +39,17 @@ def run_variant(args):
     load_rules()
     d = _scratch(root)
     try:
-        for ed in v["edits"]:
+        if v.get("patch"):
+            import subprocess
+
+            r = subprocess.run(["patch", "-p1", "-s", "-i", os.path.join(VERIF, v["patch"])], cwd=d, capture_output=True, text=True)
+            if r.returncode != 0:
+                return (v["id"], "stale", f"seeded patch no longer applies: {(r.stdout + r.stderr)[:80]}")
+        if v.get("tree"):
+            shutil.rmtree(d, ignore_errors=True)
+            d = os.path.join(VERIF, v["tree"])
+        p = None
+        for ed in v.get("edits", []):
             p = os.path.join(d, ed["file"])
             s = open(p, encoding="utf8").read()
             if s.count(ed["find"]) != 1:
@@ -47,7 +57,8 @@ def run_variant(args):
             s = s.replace(ed["find"], ed["replace"])
             open(p, "w", encoding="utf8").write(s)
         try:
-            compile(open(p, encoding="utf8").read(), p, "exec")
+            if p:
+                compile(open(p, encoding="utf8").read(), p, "exec")
         except SyntaxError as e:
             return (v["id"], "stale", f"variant does not compile: {e}")
         model = Model(d)
@@ -56,7 +67,7 @@ def run_variant(args):
         if v["expect"] == "detect":
             if bad:
                 want = v.get("rule")
-                if want and not any(i.rule.split(".")[0] == want or i.rule == want for i in bad):
+                if want and not any(i.rule == want or i.rule.startswith(want) or want in i.rule.split(".") for i in bad):
                     return (v["id"], "wrong-rule", f"reported by {sorted({i.rule for i in bad})}, expected {want}")
                 return (v["id"], "detected", bad[0].rule + ": " + (bad[0].detail or bad[0].construct)[:120])
             if errors:
@@ -69,11 +80,40 @@ def run_variant(args):
                 return (v["id"], "analysis-error", errors[0][:160])
             return (v["id"], "silent", "")
     finally:
-        shutil.rmtree(d, ignore_errors=True)
+        if not v.get("tree"):
+            shutil.rmtree(d, ignore_errors=True)
+
+
+def seeded_variants():
+    """every kept seeded change (sub-agent written, confirmed) is a breaking variant of the properties whose
+    checks reported it when it was taken in (meta.json), at least of the property it was written against"""
+    out = []
+    base = os.path.join(VERIF, "seeded")
+    for name in sorted(os.listdir(base)) if os.path.isdir(base) else []:
+        mp = os.path.join(base, name, "meta.json")
+        if not os.path.isfile(mp):
+            continue
+        meta = json.load(open(mp))
+        det = meta.get("result", {}).get("checks_reporting", {})
+        props = sorted({meta["breaks_property"]} | {k for k, x in det.items() if x.get("rc") == 1})
+        out.append({"id": f"seeded-{name}", "props": props, "expect": "detect", "rule": None, "patch": f"seeded/{name}/patch.diff"})
+    return out
+
+
+def pinned_variants():
+    """defective twins: the pinned tree (before any fix: commit) must be reported by the rule each `fixed`
+    entry of known_findings.json names -- this is what guarantees a repaired defect is reported again if it returns"""
+    from .core import load_known
+
+    out = []
+    for e in load_known().get("fixed", []):
+        if e.get("pinned", True):
+            out.append({"id": f"pinned-{e['id']}", "props": list(e["properties"]), "expect": "detect", "rule": e["rule"], "tree": "fixtures/pinned_tree"})
+    return out
 
 
 def run_selftest(prop, root, jobs=16):
-    vs = [v for v in load_variants() if prop in v["props"]]
+    vs = [v for v in load_variants() + seeded_variants() + pinned_variants() if prop in v["props"]]
     lines, failed, names = [], 0, []
     out = {"detected": 0, "silent": 0, "missed": 0, "false-alarm": 0, "stale": 0, "analysis-error": 0, "wrong-rule": 0}
     if not vs:
